@@ -490,7 +490,12 @@ class Oracle9:
         if i in expected or i not in after:
           continue
         raw = raws.get(i)
-        if (raw and all(same(u) for u in raw.values())) or (not raw and resets):
+        multi = tag in (D.REBIND, REBINDX) and len(op[2]) > 1
+        if multi and raw and not all(same(u) for u in raw.values()):
+          # the writes of a batch may cancel out (delete an item and insert the same object next to it): every update is true when it is
+          # made, the receivers are told, and the before/after comparison sees no difference -- not a spurious event
+          self.stats['batches_with_no_net_change'] = self.stats.get('batches_with_no_net_change', 0) + 1
+        elif (raw and all(same(u) for u in raw.values())) or (not raw and resets):
           self.hit('C09/spurious/noop-update/old-is-new',
                    '%s stored what was already there and delivered a change event whose old value is its new value' % name, n)
         else:
@@ -606,6 +611,12 @@ CORPUS9 = {
   'overlapping-batch': case9([('cb', {'z': [('cb', {'a': 1})], 'x': 1})],
                              (NS, [D.REBIND, pos(0), [[[ek('z'), [1, 0], ek('a')], val(-1)], [[ek('z'), [1, -1]], val(5)]]])),
   'overlapping-append-delete': case9([('cb', {'a': [0, 1]})], (NS, [D.REBIND, pos(0, 'a'), [[[[1, 2]], val('MISSING')], [[[1, 4]], val(None)]]])),
+  # a batch replaces z[-1] by a new list and then writes into z[0] (the same slot): the update of the first write holds the new list by reference,
+  # its receivers read what it holds at delivery
+  'overlapping-write-into-new-value': case9([('cb', {'z': [[1]], 'x': 1})],
+                                            (NS, [D.REBIND, pos(0), [[[ek('z'), [1, -1]], val([])], [[ek('z'), [1, 0], [1, 0]], val({'q': 1})]]])),
+  # deleting an item and inserting the same object next to it: two true updates, no net change
+  'cancelling-batch': case9([('cb', [0, ('opq', 1, 2), 3])], (NS, [D.REBIND, pos(0), [[[[1, 1]], val('MISSING')], [[[1, 2]], [2, val(('opq', 1, 2))]]]])),
   # notify_parents=False stops at the rebind target; skip_notification=False overrides a disabled scope
   'notify-parents-false': case9([('cb', [('cb', [('cb', [('cb', [0])])])])], (NS, NOP()), (NS, [REBINDX, pos(0, 0), [[[[1, 0], [1, 0], [1, 0]], val(2)]], [], 0]),
                                 (NS, [REBINDX, pos(0, 0), [[[[1, 0]], val(1)]], [], 0])),
